@@ -135,27 +135,28 @@ Section WithUri.
     intros Hph. unfold req_body. cbv zeta.
     set (needed_n := (n - N.of_nat (length (r_body st)))%N).
     destruct (N.leb needed_n (N.of_nat (length a))) eqn:E1.
-    - apply N.leb_le in E1. simpl. split; [lia|].
+    - apply N.leb_le in E1. cbn [res_spec]. split; [lia|].
       assert (E2 : N.leb needed_n (N.of_nat (length (a ++ b))) = true)
         by (apply N.leb_le; rewrite app_length; lia).
       rewrite E2. rewrite firstn_app_le by lia. reflexivity.
-    - apply N.leb_gt in E1. simpl. split; [lia|].
-      rewrite skipn_all. simpl.
-      unfold req_dispatch. simpl. rewrite Hph. unfold req_body. cbv zeta. simpl r_body.
-      rewrite app_length.
-      replace (n - N.of_nat (length (r_body st) + length a))%N
-        with (needed_n - N.of_nat (length a))%N by lia.
+    - apply N.leb_gt in E1. cbn [res_spec]. split; [lia|].
+      rewrite skipn_all. cbn [app].
+      unfold req_dispatch. cbn [r_phase]. rewrite Hph. unfold req_body. cbv zeta.
+      cbn [r_phase r_method r_target r_headers r_body r_total].
+      assert (Hn : (n - N.of_nat (length (r_body st ++ a)) = needed_n - N.of_nat (length a))%N)
+        by (rewrite app_length; lia).
+      rewrite Hn.
       destruct (N.leb needed_n (N.of_nat (length (a ++ b)))) eqn:E2.
       + apply N.leb_le in E2. rewrite app_length in E2.
         assert (E3 : N.leb (needed_n - N.of_nat (length a)) (N.of_nat (length b)) = true)
           by (apply N.leb_le; lia).
-        rewrite E3. simpl.
+        rewrite E3. cbn [shift oeq].
         replace (N.to_nat needed_n) with (length a + N.to_nat (needed_n - N.of_nat (length a))) by lia.
         rewrite firstn_app_2. rewrite <- app_assoc. reflexivity.
       + apply N.leb_gt in E2. rewrite app_length in E2.
         assert (E3 : N.leb (needed_n - N.of_nat (length a)) (N.of_nat (length b)) = false)
           by (apply N.leb_gt; lia).
-        rewrite E3. simpl. rewrite <- app_assoc, app_length. reflexivity.
+        rewrite E3. cbn [shift oeq]. rewrite <- app_assoc, app_length. reflexivity.
   Qed.
 
   (* ---- byte counting ---- *)
@@ -208,7 +209,8 @@ Section WithUri.
         unfold req_headers at 1. rewrite Hab, HP.
         unfold req_dispatch. simpl r_phase. cbv iota.
         unfold req_headers at 1. simpl r_headers. simpl r_total. rewrite Hrest.
-        destruct (hdr_parse (hl cfg) hs1 (skipn c (strip_cr a) ++ u)) as [hs2 c2|hs2 c2|e2]; simpl hshift.
+        destruct (hdr_parse (hl cfg) hs1 (skipn c (strip_cr a) ++ u)) as [hs2 c2|hs2 c2|e2]; cbn [hshift]; cbv beta iota;
+          cbn [r_phase r_method r_target r_headers r_body r_total].
         * rewrite Nat2N.inj_add. rewrite (count_bytes_assoc _ _ _ _ _ C1).
           destruct (count_bytes cfg t1 (N.of_nat c2)) as [t2|]; [|simpl; reflexivity].
           simpl r_method. simpl r_target. simpl r_body.
@@ -224,7 +226,8 @@ Section WithUri.
           destruct (count_bytes cfg t1 (N.of_nat c2)) as [t2|]; simpl; reflexivity.
         * simpl. reflexivity.
       + simpl. unfold req_headers at 1. rewrite Hab, HP.
-        destruct (hdr_parse (hl cfg) hs1 (skipn c (strip_cr a) ++ u)) as [hs2 c2|hs2 c2|e2]; simpl hshift.
+        destruct (hdr_parse (hl cfg) hs1 (skipn c (strip_cr a) ++ u)) as [hs2 c2|hs2 c2|e2]; cbn [hshift]; cbv beta iota;
+          cbn [r_phase r_method r_target r_headers r_body r_total].
         * rewrite Nat2N.inj_add, (count_bytes_fail_mono _ _ _ _ C1). eauto.
         * rewrite Nat2N.inj_add, (count_bytes_fail_mono _ _ _ _ C1). eauto.
         * eauto.
@@ -273,5 +276,352 @@ Section WithUri.
     - apply req_line_spec. exact Hph.
     - apply req_headers_spec.
     - apply req_body_spec. exact Hph.
+  Qed.
+
+  (* ------------------------------------------------------------ locality of Complete *)
+  Lemma firstn_add {A} (n m : nat) (l : list A) :
+    firstn (n + m) l = firstn n l ++ firstn m (skipn n l).
+  Proof.
+    revert l. induction n as [|n IH]; intros l; [reflexivity|].
+    destruct l as [|x l]; [simpl; rewrite firstn_nil; reflexivity|].
+    simpl. f_equal. apply IH.
+  Qed.
+
+  Lemma tail_crlf_no_cr p k :
+    2 <= k -> k = length p -> skipn (k - 2) p = [CR; LF] -> ends_cr p = false /\ strip_cr p = p.
+  Proof.
+    intros Hk Hl H. rewrite <- (firstn_skipn (k - 2) p). rewrite H.
+    change [CR; LF] with ([CR] ++ [LF]). rewrite app_assoc.
+    rewrite ends_cr_snoc, strip_cr_snoc. split; reflexivity.
+  Qed.
+
+  Lemma req_body_firstn st n x st2 c :
+    req_body uri st n x = (st2, Complete c) -> req_body uri st n (firstn c x) = (st2, Complete c).
+  Proof.
+    unfold req_body. cbv zeta.
+    set (needed_n := (n - N.of_nat (length (r_body st)))%N).
+    destruct (N.leb needed_n (N.of_nat (length x))) eqn:E; [|discriminate].
+    apply N.leb_le in E. intros H. inversion H; subst c. clear H.
+    rewrite firstn_length.
+    assert (E2 : N.leb needed_n (N.of_nat (Nat.min (N.to_nat needed_n) (length x))) = true)
+      by (apply N.leb_le; lia).
+    rewrite E2. rewrite firstn_firstn. rewrite Nat.min_id. reflexivity.
+  Qed.
+
+  Lemma req_headers_firstn cfg st x st2 c :
+    req_headers uri cfg st x = (st2, Complete c) ->
+    req_headers uri cfg st (firstn c x) = (st2, Complete c).
+  Proof.
+    unfold req_headers at 1.
+    destruct (hdr_parse (hl cfg) (r_headers st) (strip_cr x)) as [hs1 ch|hs1 ch|e] eqn:E1.
+    2:{ destruct (count_bytes _ _ _); discriminate. }
+    2:{ discriminate. }
+    pose proof (hdr_parse_complete_tail _ _ _ _ _ E1) as [T1 [T2 T3]].
+    pose proof (hdr_parse_complete_firstn _ _ _ _ _ E1) as Loc.
+    destruct (strip_cr_decomp x) as [t [Hx _]].
+    assert (Hp : firstn ch (strip_cr x) = firstn ch x).
+    { rewrite Hx at 2. rewrite firstn_app_le by lia. reflexivity. }
+    rewrite Hp in Loc, T3.
+    assert (Hpl : length (firstn ch x) = ch).
+    { rewrite firstn_length. pose proof (strip_cr_length x). lia. }
+    destruct (tail_crlf_no_cr (firstn ch x) ch T1 (eq_sym Hpl) T3) as [Hends Hstrip].
+    (* whatever follows the block inside firstn c x, the block is found again *)
+    assert (Hfwd : forall w, hdr_parse (hl cfg) (r_headers st) (strip_cr (firstn ch x ++ w))
+                             = HComplete hs1 ch).
+    { intros w. destruct w as [|w0 w'].
+      - rewrite app_nil_r, Hstrip. exact Loc.
+      - rewrite strip_cr_app_ne by discriminate.
+        pose proof (hdr_parse_app (hl cfg) (r_headers st) (firstn ch x) (strip_cr (w0 :: w'))) as HA.
+        rewrite Loc in HA. apply HA. right. rewrite Hends. reflexivity. }
+    destruct (count_bytes cfg (r_total st) (N.of_nat ch)) as [t1|] eqn:C1; [|discriminate].
+    destruct (header_value hs1 CONTENT_LENGTH) as [v|] eqn:HV.
+    - destruct (parse_dec v) as [n|] eqn:PD; [|discriminate].
+      destruct (count_bytes cfg t1 n) as [t2|] eqn:C2; [|discriminate].
+      set (st' := {| r_phase := PBody n; r_method := r_method st; r_target := r_target st;
+                     r_headers := hs1; r_body := r_body st; r_total := t2 |}).
+      destruct (req_body uri st' n (skipn ch x)) as [stb [k|k|eb]] eqn:EB; cbn [shift]; try discriminate.
+      intros H. inversion H; subst st2 c. clear H.
+      rewrite firstn_add. unfold req_headers. rewrite Hfwd, C1, HV, PD, C2.
+      rewrite skipn_app. rewrite Hpl. replace (ch - ch) with 0 by lia.
+      rewrite skipn_all2 by lia. cbn [skipn app].
+      fold st'. rewrite (req_body_firstn _ _ _ _ _ EB). reflexivity.
+    - intros H. inversion H; subst st2 c. clear H.
+      unfold req_headers. specialize (Hfwd []). rewrite app_nil_r in Hfwd.
+      rewrite Hfwd, C1, HV. reflexivity.
+  Qed.
+
+  Lemma req_line_firstn cfg st x st2 c :
+    req_line uri uri_parse cfg st x = (st2, Complete c) ->
+    req_line uri uri_parse cfg st (firstn c x) = (st2, Complete c).
+  Proof.
+    unfold req_line at 1.
+    destruct (find_crlf x) as [e|] eqn:E.
+    2:{ destruct (over_limit _ _); discriminate. }
+    pose proof (find_crlf_bound _ _ E) as B.
+    destruct (over_limit e (rl cfg)) eqn:O; [discriminate|].
+    destruct (negb (utf8_valid (firstn e x))) eqn:U; [discriminate|].
+    destruct (count_bytes cfg (r_total st) (N.of_nat (e + 2))) as [t|] eqn:C; [|discriminate].
+    destruct (parse_request_line uri uri_parse (firstn e x)) as [[meth u]|er] eqn:PL; [|discriminate].
+    match goal with |- shift _ _ ?R = _ -> _ => destruct R as [sth [k|k|eh]] eqn:EH end;
+      cbn [shift]; try discriminate.
+    intros H. inversion H; subst st2 c. clear H.
+    unfold req_line. rewrite (find_crlf_firstn _ _ _ E) by lia. rewrite O.
+    rewrite firstn_firstn_le by lia. rewrite U, C, PL.
+    rewrite skipn_firstn_comm'. replace (e + 2 + k - (e + 2)) with k by lia.
+    rewrite (req_headers_firstn _ _ _ _ _ EH). reflexivity.
+  Qed.
+
+  Lemma req_dispatch_firstn cfg st x st2 c :
+    D cfg st x = (st2, Complete c) -> D cfg st (firstn c x) = (st2, Complete c).
+  Proof.
+    unfold req_dispatch. destruct (r_phase st).
+    - apply req_line_firstn.
+    - apply req_headers_firstn.
+    - apply req_body_firstn.
+  Qed.
+
+  (* ------------------------------------------------------------ byte accounting *)
+  Definition tot_ok (cfg : rcfg) (st : state) : Prop := presented_ok cfg (r_total st) 0 = true.
+
+  Definition is_body (p : rphase) : bool := match p with PBody _ => true | _ => false end.
+
+  Lemma count_bytes_some cfg t c t1 :
+    count_bytes cfg t c = Some t1 -> t1 = sat_add t c /\ presented_ok cfg t1 0 = true.
+  Proof.
+    unfold count_bytes, presented_ok, sat_add, USIZE_MAX. destruct (mm cfg) as [m|].
+    - destruct (N.ltb m (N.min (t + c) 18446744073709551615)) eqn:E; [discriminate|].
+      intros H. inversion H; subst t1. split; [reflexivity|].
+      apply N.ltb_ge in E. apply negb_true_iff. apply N.ltb_ge. simpl N.of_nat. lia.
+    - intros H. inversion H. split; reflexivity.
+  Qed.
+
+  Lemma presented_ok_mono cfg t1 t2 k1 k2 :
+    (t1 <= t2)%N -> k1 <= k2 -> presented_ok cfg t2 k2 = true -> presented_ok cfg t1 k1 = true.
+  Proof.
+    unfold presented_ok, sat_add, USIZE_MAX. destruct (mm cfg) as [m|]; [|reflexivity].
+    intros H1 H2. rewrite !negb_true_iff, !N.ltb_ge. lia.
+  Qed.
+
+  (* the body phase consumes everything it is given, and keeps the count *)
+  Lemma req_body_incomplete st n a st1 c :
+    req_body uri st n a = (st1, Incomplete c) ->
+    c = length a /\ r_total st1 = r_total st /\ r_phase st1 = r_phase st.
+  Proof.
+    unfold req_body. cbv zeta. destruct (N.leb _ _); [discriminate|].
+    intros H. inversion H. repeat split.
+  Qed.
+
+  Lemma req_body_complete_le st n a st1 c :
+    req_body uri st n a = (st1, Complete c) -> (N.of_nat c <= n)%N /\ r_total st1 = r_total st.
+  Proof.
+    unfold req_body. cbv zeta. destruct (N.leb _ _) eqn:E; [|discriminate].
+    intros H. inversion H. split; [lia|reflexivity].
+  Qed.
+
+  Lemma req_body_incomplete_lt st n a st1 c :
+    req_body uri st n a = (st1, Incomplete c) -> (N.of_nat c <= n)%N.
+  Proof.
+    unfold req_body. cbv zeta. destruct (N.leb _ _) eqn:E; [discriminate|].
+    apply N.leb_gt in E. intros H. inversion H. lia.
+  Qed.
+
+  (* from the request-line or header phase: the count grows by at least what is consumed,
+     a completed message passed the size test, and so did any state handed back *)
+  Lemma req_headers_total cfg st x st2 r :
+    req_headers uri cfg st x = (st2, r) ->
+    match r with
+    | Complete c2 => (sat_add (r_total st) (N.of_nat c2) <= r_total st2)%N /\ tot_ok cfg st2
+    | Incomplete c2 => (sat_add (r_total st) (N.of_nat c2) <= r_total st2)%N /\ tot_ok cfg st2
+                       /\ (is_body (r_phase st2) = true -> c2 = length x)
+    | Reject _ => True
+    end.
+  Proof.
+    unfold req_headers.
+    destruct (hdr_parse (hl cfg) (r_headers st) (strip_cr x)) as [hs1 ch|hs1 ch|e] eqn:E1.
+    - pose proof (hdr_parse_complete_tail _ _ _ _ _ E1) as [_ [Hch _]].
+      pose proof (strip_cr_length x) as Hsl.
+      destruct (count_bytes cfg (r_total st) (N.of_nat ch)) as [t1|] eqn:C1.
+      2:{ intros H; inversion H; exact I. }
+      destruct (count_bytes_some _ _ _ _ C1) as [-> Ok1].
+      destruct (header_value hs1 CONTENT_LENGTH) as [v|].
+      + destruct (parse_dec v) as [n|]; [|intros H; inversion H; exact I].
+        destruct (count_bytes cfg _ n) as [t2|] eqn:C2; [|intros H; inversion H; exact I].
+        destruct (count_bytes_some _ _ _ _ C2) as [-> Ok2].
+        match goal with |- shift _ _ ?R = _ -> _ => destruct R as [stb [k|k|eb]] eqn:EB end;
+          cbn [shift]; intros H; inversion H; subst; clear H.
+        * destruct (req_body_complete_le _ _ _ _ _ EB) as [Hk Ht]. cbn [r_total] in Ht.
+          unfold tot_ok. rewrite Ht. split; [|exact Ok2].
+          unfold sat_add, USIZE_MAX. lia.
+        * destruct (req_body_incomplete _ _ _ _ _ EB) as [Hk [Ht Hph]]. cbn [r_total r_phase] in Ht, Hph.
+          pose proof (req_body_incomplete_lt _ _ _ _ _ EB) as Hlt.
+          unfold tot_ok. rewrite Ht. split; [|split; [exact Ok2|]].
+          -- unfold sat_add, USIZE_MAX. lia.
+          -- intros _. rewrite Hk, skipn_length. lia.
+        * exact I.
+      + intros H; inversion H; subst. cbn [r_total]. split; [lia|exact Ok1].
+    - destruct (count_bytes cfg (r_total st) (N.of_nat ch)) as [t1|] eqn:C1.
+      2:{ intros H; inversion H; exact I. }
+      destruct (count_bytes_some _ _ _ _ C1) as [-> Ok1].
+      intros H; inversion H; subst. cbn [r_total r_phase is_body].
+      split; [lia|]. split; [exact Ok1|discriminate].
+    - intros H; inversion H; exact I.
+  Qed.
+
+  Lemma sat_add_assoc t a b : sat_add (sat_add t a) b = sat_add t (a + b).
+  Proof. unfold sat_add, USIZE_MAX. lia. Qed.
+
+  Lemma req_line_total cfg st x st2 r :
+    r_phase st = PRequestLine ->
+    tot_ok cfg st ->
+    req_line uri uri_parse cfg st x = (st2, r) ->
+    match r with
+    | Complete c2 => (sat_add (r_total st) (N.of_nat c2) <= r_total st2)%N /\ tot_ok cfg st2
+    | Incomplete c2 => (sat_add (r_total st) (N.of_nat c2) <= r_total st2)%N /\ tot_ok cfg st2
+                       /\ (is_body (r_phase st2) = true -> c2 = length x)
+    | Reject _ => True
+    end.
+  Proof.
+    intros Hph Hok. unfold req_line.
+    destruct (find_crlf x) as [e|] eqn:E.
+    - pose proof (find_crlf_bound _ _ E) as B.
+      destruct (over_limit e (rl cfg)); [intros H; inversion H; exact I|].
+      destruct (negb (utf8_valid (firstn e x))); [intros H; inversion H; exact I|].
+      destruct (count_bytes cfg (r_total st) (N.of_nat (e + 2))) as [t|] eqn:C; [|intros H; inversion H; exact I].
+      destruct (count_bytes_some _ _ _ _ C) as [-> Ok1].
+      destruct (parse_request_line uri uri_parse (firstn e x)) as [[meth u]|er]; [|intros H; inversion H; exact I].
+      match goal with |- shift _ _ ?R = _ -> _ => destruct R as [sth [k|k|eh]] eqn:EH end;
+        cbn [shift]; intros H; inversion H; subst; clear H.
+      + apply req_headers_total in EH. cbn [r_total] in EH. destruct EH as [H1 H2].
+        split; [|exact H2]. rewrite sat_add_assoc in H1. rewrite Nat2N.inj_add. exact H1.
+      + apply req_headers_total in EH. cbn [r_total] in EH. destruct EH as [H1 [H2 H3]].
+        split; [|split; [exact H2|]].
+        * rewrite sat_add_assoc in H1. rewrite Nat2N.inj_add. exact H1.
+        * intros Hb. specialize (H3 Hb). rewrite skipn_length in H3. lia.
+      + exact I.
+    - destruct (over_limit _ _); intros H; inversion H; subst; [exact I|].
+      split; [unfold sat_add, USIZE_MAX; lia|]. split; [exact Hok|].
+      rewrite Hph. discriminate.
+  Qed.
+
+  Lemma req_dispatch_total cfg st x st2 r :
+    is_body (r_phase st) = false -> tot_ok cfg st ->
+    D cfg st x = (st2, r) ->
+    match r with
+    | Complete c2 => (sat_add (r_total st) (N.of_nat c2) <= r_total st2)%N /\ tot_ok cfg st2
+    | Incomplete c2 => (sat_add (r_total st) (N.of_nat c2) <= r_total st2)%N /\ tot_ok cfg st2
+                       /\ (is_body (r_phase st2) = true -> c2 = length x)
+    | Reject _ => True
+    end.
+  Proof.
+    intros Hnb Hok. unfold req_dispatch. destruct (r_phase st) eqn:Hph; try discriminate.
+    - apply req_line_total; assumption.
+    - apply req_headers_total.
+  Qed.
+
+  (* ------------------------------------------------------------ Request::parse itself *)
+  Lemma req_parse_eq cfg st buf :
+    P cfg st buf =
+    match D cfg st buf with
+    | (st', Incomplete c) =>
+        if presented_ok cfg (r_total st') (length buf - c)
+        then (st', Incomplete c) else (st, Reject EMessageTooLong)
+    | r => r
+    end.
+  Proof. reflexivity. Qed.
+
+  (* states handed back by parse keep the byte count within the maximum *)
+  Lemma req_parse_tot_ok cfg st buf st1 c :
+    P cfg st buf = (st1, Incomplete c) -> tot_ok cfg st1.
+  Proof.
+    rewrite req_parse_eq. destruct (D cfg st buf) as [st' [k|k|e]]; try discriminate.
+    destruct (presented_ok cfg (r_total st') (length buf - k)) eqn:E; [|discriminate].
+    intros H. inversion H; subst. unfold tot_ok.
+    eapply presented_ok_mono; [| |exact E]; lia.
+  Qed.
+
+  Theorem req_parse_spec cfg st a b :
+    tot_ok cfg st ->
+    match P cfg st a with
+    | (st1, Complete c) => c <= length a /\ P cfg st (a ++ b) = (st1, Complete c)
+    | (st1, Incomplete c) =>
+        c <= length a /\ oeq (P cfg st (a ++ b)) (shift uri c (P cfg st1 (skipn c a ++ b)))
+    | (_, Reject e) => exists st' e', P cfg st (a ++ b) = (st', Reject e')
+    end.
+  Proof.
+    intros Hok.
+    pose proof (req_dispatch_spec cfg st a b) as HS. unfold res_spec in HS.
+    rewrite (req_parse_eq cfg st a).
+    destruct (D cfg st a) as [st1 [c|c|e]] eqn:Da.
+    - destruct HS as [Hc HS]. split; [exact Hc|]. rewrite req_parse_eq, HS. reflexivity.
+    - destruct HS as [Hc HS].
+      assert (Hlen : length (a ++ b) - c = length (skipn c a ++ b)).
+      { rewrite !app_length, skipn_length. lia. }
+      destruct (presented_ok cfg (r_total st1) (length a - c)) eqn:Pa.
+      + split; [exact Hc|].
+        rewrite (req_parse_eq cfg st (a ++ b)), (req_parse_eq cfg st1 (skipn c a ++ b)).
+        destruct (D cfg st1 (skipn c a ++ b)) as [st2 [c2|c2|e2]] eqn:Dr; cbn [shift] in HS.
+        * destruct (D cfg st (a ++ b)) as [s' [k|k|e']]; cbn [oeq] in HS; try discriminate.
+          inversion HS; subst. cbn [shift oeq]. reflexivity.
+        * destruct (D cfg st (a ++ b)) as [s' [k|k|e']]; cbn [oeq] in HS; try discriminate.
+          inversion HS; subst.
+          replace (length (a ++ b) - (c + c2)) with (length (skipn c a ++ b) - c2) by lia.
+          destruct (presented_ok cfg (r_total st2) (length (skipn c a ++ b) - c2));
+            cbn [shift oeq]; reflexivity.
+        * destruct (D cfg st (a ++ b)) as [s' [k|k|e']]; cbn [oeq] in HS; try discriminate.
+          subst. cbn [shift oeq]. reflexivity.
+      + (* rejected because too many bytes were presented: more bytes do not help *)
+        (* idempotence: the rest alone yields nothing more *)
+        pose proof (req_dispatch_spec cfg st a []) as HI. unfold res_spec in HI.
+        rewrite Da in HI. rewrite !app_nil_r in HI. destruct HI as [_ HI]. rewrite Da in HI.
+        destruct (D cfg st1 (skipn c a)) as [si [ki|ki|ei]] eqn:Di; cbn [shift oeq] in HI; try discriminate.
+        inversion HI; subst si. assert (ki = 0) by lia. subst ki. clear HI.
+        (* the phase of st1 *)
+        destruct (is_body (r_phase st)) eqn:Hb.
+        { (* body phase: everything was consumed and the count is the old one *)
+          unfold req_dispatch in Da. destruct (r_phase st) eqn:Hph; try discriminate.
+          destruct (req_body_incomplete _ _ _ _ _ Da) as [-> [Ht _]].
+          exfalso. unfold tot_ok in Hok. rewrite Nat.sub_diag, Ht, Hok in Pa. discriminate. }
+        pose proof (req_dispatch_total cfg st a st1 (Incomplete c) Hb Hok Da) as [Hlow [Hok1 Hbody]].
+        destruct (is_body (r_phase st1)) eqn:Hb1.
+        { exfalso. rewrite (Hbody eq_refl), Nat.sub_diag in Pa. unfold tot_ok in Hok1.
+          rewrite Hok1 in Pa. discriminate. }
+        rewrite (req_parse_eq cfg st (a ++ b)).
+        destruct (D cfg st1 (skipn c a ++ b)) as [st2 [c2|c2|e2]] eqn:Dr; cbn [shift] in HS.
+        * (* Complete: impossible, the message would have ended inside the rest *)
+          exfalso.
+          pose proof (req_dispatch_total cfg st1 _ st2 (Complete c2) Hb1 Hok1 Dr) as [Hl2 Hok2].
+          destruct (Nat.lt_ge_cases c2 (length (skipn c a))) as [Hlt|Hge].
+          -- pose proof (req_dispatch_firstn _ _ _ _ _ Dr) as Loc.
+             rewrite firstn_app_le in Loc by lia.
+             pose proof (req_dispatch_spec cfg st1 (firstn c2 (skipn c a)) (skipn c2 (skipn c a))) as HF.
+             unfold res_spec in HF. rewrite Loc in HF. destruct HF as [_ HF].
+             rewrite firstn_skipn in HF. rewrite Di in HF. discriminate.
+          -- rewrite skipn_length in Hge. unfold tot_ok in Hok2.
+             assert (Hbad : presented_ok cfg (r_total st1) (length a - c) = true).
+             { revert Hok2 Hl2. unfold presented_ok, sat_add, USIZE_MAX.
+               destruct (mm cfg) as [m|]; [|reflexivity].
+               rewrite !negb_true_iff, !N.ltb_ge. lia. }
+             rewrite Hbad in Pa. discriminate.
+        * destruct (D cfg st (a ++ b)) as [s' [k|k|e']]; cbn [oeq] in HS; try discriminate.
+          inversion HS; subst.
+          pose proof (req_dispatch_total cfg st1 _ st2 (Incomplete c2) Hb1 Hok1 Dr) as [Hl2 _].
+          assert (Hf : presented_ok cfg (r_total st2) (length (a ++ b) - (c + c2)) = false).
+          { destruct (presented_ok cfg (r_total st2) (length (a ++ b) - (c + c2))) eqn:E; [|reflexivity].
+            exfalso.
+            assert (Hbad : presented_ok cfg (r_total st1) (length a - c) = true).
+            { pose proof (req_dispatch_spec cfg st1 (skipn c a) b) as HB. unfold res_spec in HB.
+              rewrite Di in HB. destruct HB as [_ HB]. clear HB.
+              revert E Hl2. unfold presented_ok, sat_add, USIZE_MAX.
+              destruct (mm cfg) as [m|]; [|reflexivity].
+              rewrite !negb_true_iff, !N.ltb_ge.
+              assert (c2 <= length (skipn c a ++ b)).
+              { pose proof (req_dispatch_spec cfg st1 (skipn c a ++ b) []) as HB2.
+                unfold res_spec in HB2. rewrite Dr in HB2. tauto. }
+              rewrite app_length, skipn_length in *. lia. }
+            rewrite Hbad in Pa. discriminate. }
+          rewrite Hf. eauto.
+        * destruct (D cfg st (a ++ b)) as [s' [k|k|e']]; cbn [oeq] in HS; try discriminate.
+          subst. eauto.
+    - destruct HS as [st' [e' HS]]. rewrite req_parse_eq, HS. eauto.
   Qed.
 End WithUri.
